@@ -9,6 +9,7 @@ import (
 	"time"
 
 	kv "github.com/XiXi-2024/xixi-kv"
+	"github.com/XiXi-2024/xixi-kv/fio"
 	"verifharness/h"
 )
 
@@ -202,8 +203,17 @@ func forcedSchedules(en *Env, index string, stats map[string]int) {
 	for _, bop := range []string{"Put", "Delete"} {
 		scens = append(scens, scen{"Merge", "merge.scan", bop, true}, scen{"Merge", "merge.rewrite", bop, true})
 	}
+	// the I/O calls themselves are schedule points too: A parked inside its write / its fsync
+	for _, bop := range []string{"Put", "Delete", "Get"} {
+		scens = append(scens, scen{"Put", "io.sync", bop, true}, scen{"Delete", "io.sync", bop, true},
+			scen{"Put", "io.write", bop, true}, scen{"Put", "io.sync", bop, false})
+	}
 	for _, sc := range scens {
 		cfg := h.Cfg{Index: index, Shards: []int{1, 16}[en.R.Intn(2)], IO: h.IOTypes[en.R.Intn(2)], Limit: []int64{300, 1 << 20}[en.R.Intn(2)], Sync: "no"}
+		if sc.point == "io.sync" {
+			cfg.Sync = []string{"always", "threshold"}[en.R.Intn(2)]
+			cfg.BPS = 1
+		}
 		e := openFresh(en, cfg, 2)
 		if e == nil {
 			continue
@@ -217,6 +227,11 @@ func forcedSchedules(en *Env, index string, stats map[string]int) {
 		}
 		g := newGate(sc.point)
 		kv.VerifPoint = func(name string, arg uint32) { g.hook(name) }
+		fio.VerifIO = func(phase int, kind, name string, n int64) {
+			if phase == 0 {
+				g.hook("io." + kind)
+			}
+		}
 		aVal, _ := e.V.New(20 + en.R.Intn(20)) // generated up front: the value table is not concurrency-safe
 		bVal, _ := e.V.New(40 + en.R.Intn(20))
 		var wg sync.WaitGroup
@@ -253,6 +268,7 @@ func forcedSchedules(en *Env, index string, stats map[string]int) {
 		g.once.Do(func() { close(g.release) })
 		wg.Wait()
 		kv.VerifPoint = nil
+		fio.VerifIO = nil
 		rec.flush(en, e, cfg, "forced:"+sc.aop+"@"+sc.point+"/"+sc.bop)
 		if e.DB != nil {
 			e.DB.Close()
@@ -270,7 +286,7 @@ func randomHistory(en *Env, i int, stats map[string]int) {
 		nclients = 16
 		ops = 6
 	}
-	cfg := h.Cfg{Index: h.IndexTypes[i%3], Shards: []int{1, 2, 16}[r.Intn(3)], IO: h.IOTypes[(i/3)%2], Limit: []int64{300, 2000, 1 << 20}[r.Intn(3)], Sync: "no"}
+	cfg := h.Cfg{Index: h.IndexTypes[i%3], Shards: []int{1, 2, 16}[r.Intn(3)], IO: h.IOTypes[(i/3)%2], Limit: []int64{300, 2000, 1 << 20}[r.Intn(3)], Sync: h.SyncKinds[(i/2)%3], BPS: 64}
 	e := openFresh(en, cfg, 3)
 	if e == nil {
 		return
@@ -288,6 +304,19 @@ func randomHistory(en *Env, i int, stats map[string]int) {
 			runtime.Gosched()
 		case x < 6:
 			time.Sleep(time.Duration(20+x*10) * time.Microsecond)
+		}
+	}
+	fio.VerifIO = func(phase int, kind, name string, n int64) {
+		if phase == 0 && (kind == "sync" || kind == "write") {
+			pr.Lock()
+			x := prnd.Intn(10)
+			pr.Unlock()
+			switch {
+			case x < 3:
+				runtime.Gosched()
+			case x < 6:
+				time.Sleep(time.Duration(30+x*20) * time.Microsecond)
+			}
 		}
 	}
 	var wg sync.WaitGroup
@@ -342,6 +371,7 @@ func randomHistory(en *Env, i int, stats map[string]int) {
 		h.ExitIfStuck("stuck", en.T)
 	}
 	kv.VerifPoint = nil
+	fio.VerifIO = nil
 	rec.flush(en, e, cfg, "random")
 	if e.DB != nil {
 		e.DB.Close()
